@@ -17,9 +17,9 @@ def run(tier: str, keep: bool = False) -> int:
     q = r.quick
     props = ["C08", "C10", "C19"]
     fam = 'Numbered({ [SoloBase(2, sl, n) EXCEPT !.closure = c] : sl \\in {1, 2}, n \\in {3, 4}, c \\in BOOLEAN })'
-    r.solo("nak", "S", fam, ["poll", "nak", "nakodd", "ack"], 5 if q else 6, props, pre=[["put"], ["poll"]], limit=6000 if q else 120000)
+    r.solo("nak", "S", fam, ["poll", "nak", "nakodd", "ack"], 5 if q else 6, props, pre=[["put"], ["poll"]], limit=6000 if q else 60000)
     r.solo("nakfin", "S", 'Numbered({ SoloBase(2, 1, 2), [SoloBase(2, 1, 2) EXCEPT !.mode = "UNACK"] })',
-           ["poll", "nak", "nakodd", "ack", "fin", "tick"], 6 if q else 7, props, pre=[["put"], ["poll"], ["poll"]], limit=4000 if q else 120000)
+           ["poll", "nak", "nakodd", "ack", "fin", "tick"], 6 if q else 8, props, pre=[["put"], ["poll"], ["poll"]], limit=4000 if q else 60000)
     r.solo("twonaks", "S", 'Numbered({ SoloBase(3, 1, 2), [SoloBase(3, 1, 2) EXCEPT !.closure = TRUE] })', ["poll", "nak", "ack", "fin"],
            9 if q else 10, props, pre=[["put"], ["poll"], ["nak"], ["poll"], ["poll"], ["poll"]])
     r.driver("src_random", 600 if q else 8000, props, leave=0.0)
